@@ -1,16 +1,5 @@
 #!/bin/bash
-# usage (from a snapshot of /verif, e.g. `vp run --with-repo -- tools/reeval_isolated.sh quick`):
-#   tools/reeval_isolated.sh [tier] [glob]
-# Re-evaluates the stored seeded changes WITHOUT touching /repo: the copy of /verif this script lives in is pointed at
-# the repository copy $VP_RUN_REPO (harness path dependencies and Cargo.lock source rewritten in this copy only).
-# Results: seeded/REEVAL.<tier>.txt inside this copy (copy it back by hand; it is a report, not evidence).
-set -eu
-VROOT="$(cd "$(dirname "$0")/.." && pwd)"
-REPO=${VP_RUN_REPO:?needs a scratch copy of the repository in VP_RUN_REPO}
-case "$VROOT" in /verif) echo "refusing to rewrite /verif itself"; exit 9;; esac
-sed -i "s#\"/repo/#\"$REPO/#" $VROOT/harness/Cargo.toml
-sed -i "s#\"/repo/Cargo.lock\"#\"$REPO/Cargo.lock\"#g" $VROOT/check
-export GMRS_REPO=$REPO
-cd $VROOT
-./check build
-exec tools/reeval_seeds.sh "${1:-quick}" "${2:-C??-*}"
+# usage: vp run --with-repo -- tools/reeval_isolated.sh [tier] [glob]
+# Re-evaluates the stored seeded changes WITHOUT touching /repo (see tools/isolated.sh).
+# Results: seeded/REEVAL.<tier>.txt inside the snapshot (copy it back by hand; it is a report, not evidence).
+exec "$(dirname "$0")/isolated.sh" tools/reeval_seeds.sh "${1:-quick}" "${2:-C??-*}"
